@@ -12,7 +12,8 @@ RULE = ("seeded force fields (.ff / polyply .itp blocks, 1-5 atoms, bonds/constr
         "from_itp blocks) x residue graphs (linear/tree/ring, contiguous ids from 1,2,5,17) run through the real "
         "gen_params, and residue graphs over the blocks of the shipped libraries (-lib) with their default protein termini; "
         "expectation computed from the abstract spec by pvmon.oracle.refparams. non-trivial = accepted "
-        "case with >= 2 residues; distinct = hash of (files, graph)")
+        "case with >= 2 residues; distinct = hash of (files, graph)"
+        ' Later strata: blocks of the shipped libraries with default protein termini; gen_params -dsdna on strands whose ids do not start at 1; blocks whose residue-number column starts at 2-7; molecules that begin with a multi-residue fragment; blocks sharing atom names; every block exclusion must survive the generated ones.')
 ASSUMPTIONS = ["charge groups compared up to one constant per block instance",
                "interactions compared up to reversal of the atom tuple (writer canonicalisation)",
                "blocks that repeat the same atoms in one section without version tags live in their own stratum (F15)",
